@@ -1541,6 +1541,25 @@ func randomSceneParts(rng *rand.Rand, parts int) (*osm.OSM, string) {
 			class += "M"
 		}
 	}
+	if len(g.o.Relations) > 0 && rng.Intn(3) == 0 {
+		// a parent relation (route_master, super relation, collection) over some of the relations,
+		// listed BEFORE or after its children
+		var ms osm.Members
+		for _, r := range g.o.Relations {
+			if rng.Intn(3) != 0 {
+				ms = append(ms, osm.Member{Type: osm.TypeRelation, Ref: int64(r.ID), Role: otherRoles[rng.Intn(len(otherRoles))]})
+			}
+		}
+		ms = append(ms, osm.Member{Type: osm.TypeRelation, Ref: 990, Role: "missing"})
+		parent := &osm.Relation{ID: g.nextR, Tags: osm.Tags{{Key: "type", Value: []string{"route_master", "superroute", "collection", "route"}[rng.Intn(4)]}}, Members: ms, Version: 1 + rng.Intn(3)}
+		g.nextR++
+		if rng.Intn(2) == 0 {
+			g.o.Relations = append(osm.Relations{parent}, g.o.Relations...)
+		} else {
+			g.o.Relations = append(g.o.Relations, parent)
+		}
+		class += "P"
+	}
 	if rng.Intn(4) == 0 {
 		rng.Shuffle(len(g.o.Nodes), func(i, j int) { g.o.Nodes[i], g.o.Nodes[j] = g.o.Nodes[j], g.o.Nodes[i] })
 		rng.Shuffle(len(g.o.Ways), func(i, j int) { g.o.Ways[i], g.o.Ways[j] = g.o.Ways[j], g.o.Ways[i] })
@@ -1685,6 +1704,15 @@ func corpus() []*osm.OSM {
 	o.Nodes[2].Tags = tagsOf("created_by", "x")
 	o.Nodes[3].Tags = tagsOf("Source", "x")
 	out = append(out, o)
+	// a route master listed before the route it contains, and a route that is a member of itself
+	out = append(out, &osm.OSM{
+		Nodes: nodesAt([3]int{1, 1, 1}, [3]int{2, 2, 2}, [3]int{3, 3, 1}),
+		Ways:  osm.Ways{wayIDs(1, nil, 1, 2), wayIDs(2, tagsOf("highway", "path"), 2, 3)},
+		Relations: osm.Relations{
+			{ID: 9, Tags: tagsOf("type", "route_master", "ref", "7"), Members: osm.Members{{Type: osm.TypeRelation, Ref: 5, Role: "variant"}, {Type: osm.TypeRelation, Ref: 6}}},
+			{ID: 5, Tags: tagsOf("type", "route"), Members: osm.Members{{Type: osm.TypeWay, Ref: 1}, {Type: osm.TypeWay, Ref: 2}, {Type: osm.TypeRelation, Ref: 5, Role: "self"}}},
+			{ID: 6, Tags: tagsOf("type", "multipolygon"), Members: osm.Members{{Type: osm.TypeRelation, Ref: 9, Role: "back"}}}},
+	})
 	// a route whose only member way has one resolvable node: feature with an empty MultiLineString
 	out = append(out, &osm.OSM{
 		Nodes:     nodesAt([3]int{1, 1, 1}),
